@@ -222,10 +222,17 @@ def bisector(check: Check, info) -> None:
     last = any(s[0] == "sub" and any(const_value(q) == -1 for q in walk(s[2]) if q[0] in ("const", "unop")) for s in walk(ret))
     argmin = any(s[0] == "cmp" and s[1] == ("==",) and any(q[0] == "call" and q[1][0] == "attr" and q[1][2] == "min" for q in s[2]) for s in walk(ret))
     mean = any(n in ("numpy.nanmean", "numpy.mean") for n in names) and any(s[0] == "call" and s[1] == ("global", "numpy.where") and s[2][1] == x for s in walk(ret))
+    # the deviation from one half is minimised as a distance: |c - 1/2| (or its square), not the signed difference
+    def is_half(t_: Term) -> bool:
+        return t_[0] == "binop" and t_[1] == "-" and t_[3] == ("const", 0.5)
+
+    dist = any((s[0] == "call" and s[1][0] == "global" and s[1][1] in ("numpy.abs", "numpy.absolute", "numpy.fabs", "abs", "numpy.square") and s[2] and is_half(strip(s[2][0])))
+               or (s[0] == "binop" and s[1] == "**" and s[3] == ("const", 2) and is_half(strip(s[2]))) for s in walk(ret))
+    half = half and dist
     ok = has_cum and half and last and argmin and mean
     check.require(ok, "S5", "Bisector.defuzzify/formula",
                   "bisector = mean of the sample points whose normalised cumulative membership is closest to one half" if ok else
-                  f"cumulative sum={has_cum}, minus one half={half}, normalised by the last column={last}, closest={argmin}, mean of tied points={mean}", loc(fn))
+                  f"cumulative sum={has_cum}, distance |c - 1/2|={half}, normalised by the last column={last}, closest={argmin}, mean of tied points={mean}", loc(fn))
 
 
 def _index_vector(t: Term, res: Term) -> str | None:
